@@ -8,7 +8,7 @@ any of them breaks the theorem that talks about it.
 
 Spec (written here, independently of the code): `cellOf`, `namesCell`, `axisAdj`, `faceAdj`.
 -/
-import Strengths.Proofs.Grid
+import Strengths.Proofs.GridGraph
 
 namespace Strengths.C15
 open Strengths Strengths.Gen
@@ -247,6 +247,128 @@ theorem engine_tables :
     (∀ n c, wrapAxis0 n c = Int.tmod (n + c) n ∧ wrapAxis1 n c = Int.tmod (n + c) n ∧ wrapAxis2 n c = Int.tmod (n + c) n) :=
   ⟨by decide +kernel, by decide +kernel, by decide +kernel, by decide +kernel, by decide +kernel, fun n c => wrapAxis_eq n c⟩
 
+/-! ### completeness and multiplicities of the engine's table -/
+
+theorem coordsOf_eq (g : GridShape) (i : Int) : coordsOf g i = cellCoords g i := rfl
+
+private theorem axisAdj_iff_steps {per : Bool} {n a b : Int} (ha : 0 ≤ a ∧ a < n) (hb : 0 ≤ b ∧ b < n) :
+    axisAdj per n a b ↔ ((b = a + 1 ∧ b < n) ∨ (per = true ∧ a = n - 1 ∧ b = 0)) ∨
+      ((a = b + 1 ∧ 0 ≤ b) ∨ (per = true ∧ a = 0 ∧ b = n - 1)) := by
+  unfold axisAdj
+  cases per <;> simp <;> omega
+
+private theorem six_split (A0 A1 B0 B1 C0 C1 ex ey ez : Prop) :
+    (((A0 ∨ A1) ∧ ey ∧ ez) ∨ (ex ∧ (B0 ∨ B1) ∧ ez) ∨ (ex ∧ ey ∧ (C0 ∨ C1))) ↔
+    ((A0 ∧ ey ∧ ez) ∨ (A1 ∧ ey ∧ ez) ∨ (ex ∧ B0 ∧ ez) ∨ (ex ∧ B1 ∧ ez) ∨ (ex ∧ ey ∧ C0) ∨ (ex ∧ ey ∧ C1)) := by tauto
+
+/-- face adjacency = being behind one of the six faces -/
+theorem faceAdj_iff_reach (g : GridShape) {c1 c2 : Int × Int × Int}
+    (h1 : inGrid g c1.1 c1.2.1 c1.2.2) (h2 : inGrid g c2.1 c2.2.1 c2.2.2) :
+    faceAdj g c1 c2 ↔ ∃ n < 6, reach g n c1 c2 := by
+  rw [exists_lt_six]
+  simp only [faceAdj, axisAdj_iff_steps h1.1 h2.1, axisAdj_iff_steps h1.2.1 h2.2.1, axisAdj_iff_steps h1.2.2 h2.2.2]
+  show _ ↔ (((_ ∨ _) ∧ _ ∧ _) ∨ ((_ ∨ _) ∧ _ ∧ _) ∨ (_ ∧ (_ ∨ _) ∧ _) ∨ (_ ∧ (_ ∨ _) ∧ _) ∨ (_ ∧ _ ∧ (_ ∨ _)) ∨ (_ ∧ _ ∧ (_ ∨ _)))
+  exact six_split _ _ _ _ _ _ _ _ _
+
+/-- number of the six faces of `c1` behind which `c2` lies (Spec of the coupling multiplicity) -/
+def faceCount (g : GridShape) (c1 c2 : Int × Int × Int) : Nat :=
+  ((List.range 6).filter fun n => decide (reach g n c1 c2)).length
+
+theorem faceCount_eq_sum (g : GridShape) (c1 c2 : Int × Int × Int) :
+    faceCount g c1 c2 = (if reach g 0 c1 c2 then 1 else 0) + (if reach g 1 c1 c2 then 1 else 0) +
+      (if reach g 2 c1 c2 then 1 else 0) + (if reach g 3 c1 c2 then 1 else 0) +
+      (if reach g 4 c1 c2 then 1 else 0) + (if reach g 5 c1 c2 then 1 else 0) := by
+  have : List.range 6 = [0, 1, 2, 3, 4, 5] := by decide
+  simp only [faceCount, this, List.filter_cons, List.filter_nil, decide_eq_true_eq]
+  split_ifs <;> rfl
+
+/-- a cell lies behind its own face exactly on a periodic axis of length 1: then behind both faces of that axis -/
+theorem faceCount_self (g : GridShape) {x y z : Int} (hc : inGrid g x y z) :
+    faceCount g (x, y, z) (x, y, z) =
+      2 * ((if g.px = true ∧ g.w = 1 then 1 else 0) + (if g.py = true ∧ g.h = 1 then 1 else 0) +
+           (if g.pz = true ∧ g.d = 1 then 1 else 0)) := by
+  obtain ⟨⟨hx0, hx1⟩, ⟨hy0, hy1⟩, ⟨hz0, hz1⟩⟩ := hc
+  have r0 : reach g 0 (x, y, z) (x, y, z) ↔ (g.px = true ∧ g.w = 1) := by simp only [reach]; cases g.px <;> simp <;> omega
+  have r1 : reach g 1 (x, y, z) (x, y, z) ↔ (g.px = true ∧ g.w = 1) := by simp only [reach]; cases g.px <;> simp <;> omega
+  have r2 : reach g 2 (x, y, z) (x, y, z) ↔ (g.py = true ∧ g.h = 1) := by simp only [reach]; cases g.py <;> simp <;> omega
+  have r3 : reach g 3 (x, y, z) (x, y, z) ↔ (g.py = true ∧ g.h = 1) := by simp only [reach]; cases g.py <;> simp <;> omega
+  have r4 : reach g 4 (x, y, z) (x, y, z) ↔ (g.pz = true ∧ g.d = 1) := by simp only [reach]; cases g.pz <;> simp <;> omega
+  have r5 : reach g 5 (x, y, z) (x, y, z) ↔ (g.pz = true ∧ g.d = 1) := by simp only [reach]; cases g.pz <;> simp <;> omega
+  rw [faceCount_eq_sum]
+  simp only [r0, r1, r2, r3, r4, r5]
+  split_ifs <;> rfl
+
+instance (per : Bool) (n a b : Int) : Decidable (axisAdj per n a b) := by unfold axisAdj; infer_instance
+
+private theorem axis_count {per : Bool} {n a b : Int} (ha : 0 ≤ a ∧ a < n) (hb : 0 ≤ b ∧ b < n) (hne : a ≠ b) :
+    ((if (b = a + 1 ∧ b < n) ∨ (per = true ∧ a = n - 1 ∧ b = 0) then 1 else 0) +
+     (if (a = b + 1 ∧ 0 ≤ b) ∨ (per = true ∧ a = 0 ∧ b = n - 1) then 1 else 0) : Nat) =
+    if axisAdj per n a b then (if per = true ∧ n = 2 then 2 else 1) else 0 := by
+  unfold axisAdj
+  cases per <;> simp <;> split_ifs <;> omega
+
+/-- the two cells of a face pair on a periodic axis of length 2 touch through both faces of that axis -/
+def doubleAxis (g : GridShape) (c1 c2 : Int × Int × Int) : Prop :=
+  (g.px = true ∧ (g.w : Int) = 2 ∧ c1.1 ≠ c2.1) ∨ (g.py = true ∧ (g.h : Int) = 2 ∧ c1.2.1 ≠ c2.2.1) ∨ (g.pz = true ∧ (g.d : Int) = 2 ∧ c1.2.2 ≠ c2.2.2)
+
+instance (g : GridShape) (c1 c2 : Int × Int × Int) : Decidable (doubleAxis g c1 c2) := by unfold doubleAxis; infer_instance
+instance (g : GridShape) (c1 c2 : Int × Int × Int) : Decidable (faceAdj g c1 c2) := by unfold faceAdj; infer_instance
+
+theorem faceCount_distinct (g : GridShape) {c1 c2 : Int × Int × Int}
+    (h1 : inGrid g c1.1 c1.2.1 c1.2.2) (h2 : inGrid g c2.1 c2.2.1 c2.2.2) (hne : c1 ≠ c2) :
+    faceCount g c1 c2 = if faceAdj g c1 c2 then (if doubleAxis g c1 c2 then 2 else 1) else 0 := by
+  obtain ⟨x1, y1, z1⟩ := c1
+  obtain ⟨x2, y2, z2⟩ := c2
+  rw [faceCount_eq_sum]
+  simp only [reach, faceAdj, doubleAxis]
+  by_cases ex : x1 = x2 <;> by_cases ey : y1 = y2 <;> by_cases ez : z1 = z2
+  · exact absurd (by rw [ex, ey, ez]) hne
+  · -- z differs
+    have := axis_count (per := g.pz) h1.2.2 h2.2.2 ez
+    simp only [ex, ey, ez, true_and, and_true, ne_eq, not_true_eq_false, and_false, false_or, or_false] at this ⊢
+    simp only [↓reduceIte, Nat.zero_add, not_false_eq_true, and_true]
+    exact this
+  · have := axis_count (per := g.py) h1.2.1 h2.2.1 ey
+    simp only [ex, ey, ez, true_and, and_true, ne_eq, not_true_eq_false, and_false, false_and, false_or, or_false] at this ⊢
+    simp only [↓reduceIte, Nat.zero_add, Nat.add_zero, not_false_eq_true, and_true]
+    exact this
+  · simp [ey, ez]
+  · have := axis_count (per := g.px) h1.1 h2.1 ex
+    simp only [ex, ey, ez, true_and, and_true, ne_eq, not_true_eq_false, and_false, false_and, false_or, or_false] at this ⊢
+    simp only [↓reduceIte, Nat.zero_add, Nat.add_zero, not_false_eq_true, and_true]
+    exact this
+  · simp [ex, ez]
+  · simp [ex, ey]
+  · simp [ex, ey]
+
+/-- **engine_nbr_iff** — the engine's table lists exactly the face neighbours: some slot of cell `i` holds `j` iff `j` is
+face-adjacent to `i` (all cells `i`, `j`; for `i = j` both sides hold exactly on a periodic axis of length 1) -/
+theorem engine_nbr_iff {g : GridShape} (hv : g.valid = true) {i j : Nat} (hi : i < g.size) (hj : j < g.size) :
+    (∃ n < 6, engNbr? g i n = some j) ↔ faceAdj g (coordsOf g i) (coordsOf g j) := by
+  obtain ⟨ix, iy, iz, _⟩ := cellCoords_range hv hi
+  obtain ⟨jx, jy, jz, _⟩ := cellCoords_range hv hj
+  rw [coordsOf_eq, coordsOf_eq, faceAdj_iff_reach g ⟨ix, iy, iz⟩ ⟨jx, jy, jz⟩]
+  constructor
+  · rintro ⟨n, hn, h⟩; exact ⟨n, hn, (engNbr_iff_reach hv hi hj hn).1 h⟩
+  · rintro ⟨n, hn, h⟩; exact ⟨n, hn, (engNbr_iff_reach hv hi hj hn).2 h⟩
+
+/-- **multiplicity** — the number of slots of cell `i` that hold `j` is the number of faces of `i` behind which `j` lies;
+by `faceCount_self` that is 2 per periodic axis of length 1 for `j = i` (self entries), and by `faceCount_distinct` it is
+2 on a periodic axis of length 2 (both directions reach the same cell), 1 for any other face neighbour, 0 otherwise -/
+theorem engine_nbr_count {g : GridShape} (hv : g.valid = true) {i j : Nat} (hi : i < g.size) (hj : j < g.size) :
+    ((List.range 6).filter fun n => engNbr? g i n == some j).length = faceCount g (coordsOf g i) (coordsOf g j) := by
+  unfold faceCount
+  congr 1
+  apply List.filter_congr
+  intro n hn
+  have hn6 : n < 6 := List.mem_range.1 hn
+  rw [coordsOf_eq, coordsOf_eq]
+  have := engNbr_iff_reach hv hi hj hn6
+  by_cases h : engNbr? g i n = some j
+  · simp [h, this.1 h]
+  · have h' : ¬ reach g n (cellCoords g i) (cellCoords g j) := fun r => h (this.2 r)
+    simp [h, h']
+
 /-! ## `get_neighbors` and the kinetics enumeration: the generated rules are the face rules -/
 
 /-- the twelve `if` lines of `get_neighbors`: the two inner neighbours per axis, and the opposite end of a periodic axis -/
@@ -272,6 +394,83 @@ theorem get_neighbors_sound (g : GridShape) {x y z : Int} (hc : inGrid g x y z) 
       | omega
       | (obtain ⟨hp, hq⟩ := hcond; simp only [hp, true_and, and_true]; omega)
 
+/-! ### completeness of `get_neighbors` -/
+
+private theorem twelve_split (D1 D2 D3 D4 D5 D6 D7 D8 D9 D10 D11 D12 R0 R1 R2 R3 R4 R5 : Prop)
+    (h0 : D4 ∨ D10 ↔ R0) (h1 : D1 ∨ D7 ↔ R1) (h2 : D5 ∨ D11 ↔ R2) (h3 : D2 ∨ D8 ↔ R3) (h4 : D6 ∨ D12 ↔ R4) (h5 : D3 ∨ D9 ↔ R5) :
+    (D1 ∨ D2 ∨ D3 ∨ D4 ∨ D5 ∨ D6 ∨ D7 ∨ D8 ∨ D9 ∨ D10 ∨ D11 ∨ D12) ↔ (R0 ∨ R1 ∨ R2 ∨ R3 ∨ R4 ∨ R5) := by
+  rw [← h0, ← h1, ← h2, ← h3, ← h4, ← h5]; exact Iff.of_eq (by ac_rfl)
+
+/-- coordinate level: the rules of `get_neighbors` that fire name exactly the face neighbours -/
+theorem get_neighbors_coords_iff (g : GridShape) {x y z xj yj zj : Int} (hc : inGrid g x y z) (hj : inGrid g xj yj zj) :
+    (∃ r ∈ getNbrRules g.w g.h g.d g.px g.py g.pz x y z, r.1 = true ∧ r.2 = (xj, yj, zj)) ↔
+      faceAdj g (x, y, z) (xj, yj, zj) := by
+  rw [faceAdj_iff_reach g hc hj, exists_lt_six, get_neighbors_rules]
+  simp only [List.mem_cons, List.not_mem_nil, or_false, or_and_right, exists_or, exists_eq_left]
+  obtain ⟨⟨hx0, hx1⟩, ⟨hy0, hy1⟩, ⟨hz0, hz1⟩⟩ := hc
+  obtain ⟨⟨jx0, jx1⟩, ⟨jy0, jy1⟩, ⟨jz0, jz1⟩⟩ := hj
+  apply twelve_split <;>
+    simp only [reach, Prod.mk.injEq, decide_eq_true_eq, Bool.and_eq_true, beq_iff_eq]
+  · cases g.px <;> simp <;> omega
+  · cases g.px <;> simp <;> omega
+  · cases g.py <;> simp <;> omega
+  · cases g.py <;> simp <;> omega
+  · cases g.pz <;> simp <;> omega
+  · cases g.pz <;> simp <;> omega
+
+theorem coordsOf_inGrid {g : GridShape} (hv : g.valid = true) {i : Int} (hi : 0 ≤ i ∧ i < (g.w : Int) * g.h * g.d) :
+    inGrid g (coordsOf g i).1 (coordsOf g i).2.1 (coordsOf g i).2.2 ∧
+    cellOf g (coordsOf g i).1 (coordsOf g i).2.1 (coordsOf g i).2.2 = i := by
+  obtain ⟨hw, hh, _⟩ := GridShape.valid_pos hv
+  obtain ⟨hx, hy, hz, hsum⟩ := encode_decode hw hh hi.1 hi.2
+  refine ⟨⟨hx, hy, hz⟩, ?_⟩
+  have e : ∀ X Y Z : Int, Z * ↑g.w * ↑g.h + Y * ↑g.w + X = X + Y * ↑g.w + Z * (↑g.w * ↑g.h) := fun _ _ _ => by ring
+  simp only [cellOf, coordsOf, e]; exact hsum
+
+/-- `get_cell_coordinates(i)` returns the coordinates of the Spec -/
+theorem pyCoords_eq {g : GridShape} (hv : g.valid = true) {i : Int} (hi : 0 ≤ i ∧ i < (g.w : Int) * g.h * g.d) :
+    pyCoords g i = .ok (coordsOf g i) := by
+  obtain ⟨hin, hcell⟩ := coordsOf_inGrid hv hi
+  have := coords_index g hin
+  rw [hcell] at this
+  exact this
+
+theorem pyCellIndex_num {g : GridShape} {i : Int} (hi : 0 ≤ i ∧ i < (g.w : Int) * g.h * g.d) :
+    pyCellIndex g (.num i) = .ok i := by
+  have : pyWithinBounds g (.num i) = true := (within_bounds_iff g _).2 hi
+  simp only [pyCellIndex, this, Bool.or_true, if_true, cellIndexNum]
+
+/-- **get_neighbors_iff** — `get_neighbors(i)` succeeds and names exactly the face neighbours of cell `i` -/
+theorem get_neighbors_iff {g : GridShape} (hv : g.valid = true) {i j : Int}
+    (hi : 0 ≤ i ∧ i < (g.w : Int) * g.h * g.d) (hj : 0 ≤ j ∧ j < (g.w : Int) * g.h * g.d) :
+    ∃ l, pyGetNeighbors g (.num i) = .ok l ∧ (j ∈ l ↔ faceAdj g (coordsOf g i) (coordsOf g j)) := by
+  obtain ⟨ci, hci⟩ := coordsOf_inGrid hv hi
+  obtain ⟨cj, hcj⟩ := coordsOf_inGrid hv hj
+  generalize coordsOf g j = c2 at cj hcj ⊢
+  obtain ⟨xj, yj, zj⟩ := c2
+  have hc := pyCoords_eq hv hi
+  generalize coordsOf g i = c1 at ci hci hc ⊢
+  obtain ⟨x, y, z⟩ := c1
+  let rules := (getNbrRules g.w g.h g.d g.px g.py g.pz x y z).filter (·.1)
+  have hr : ∀ r ∈ rules, pyCellIndex g (.arr r.2.1 r.2.2.1 r.2.2.2) = .ok (cellOf g r.2.1 r.2.2.1 r.2.2.2) := by
+    intro r hr
+    obtain ⟨hm, hcnd⟩ := List.mem_filter.1 hr
+    exact (index_formula g (get_neighbors_sound g ci r hm hcnd).1).1
+  refine ⟨rules.map fun r => cellOf g r.2.1 r.2.2.1 r.2.2.2, ?_, ?_⟩
+  · simp only [pyGetNeighbors, pyCellIndex_num hi, hc]
+    exact seqRes_map_ok _ _ rules hr
+  · rw [← get_neighbors_coords_iff g ci cj]
+    simp only [List.mem_map, rules, List.mem_filter]
+    constructor
+    · rintro ⟨r, ⟨hm, hcnd⟩, he⟩
+      refine ⟨r, hm, hcnd, ?_⟩
+      have hin := (get_neighbors_sound g ci r hm hcnd).1
+      rw [← hcj] at he
+      obtain ⟨e1, e2, e3⟩ := index_injective g hin cj he
+      exact Prod.ext e1 (Prod.ext e2 e3)
+    · rintro ⟨r, hm, hcnd, he⟩
+      exact ⟨r, ⟨hm, hcnd⟩, by rw [he]; exact hcj⟩
+
 /-- the kinetics loop: six unit shifts, wrapped like the engine does (Python `%` = C++ `%` on the values that
 occur) but only on a periodic axis longer than one cell -/
 theorem kinetics_rules (x y z : Int) :
@@ -283,6 +482,170 @@ theorem kinetics_rules (x y z : Int) :
   refine ⟨rfl, fun _ _ => ⟨rfl, rfl, rfl⟩, rfl, fun n c hn hc => ?_⟩
   simp only [kinWrap0, kinWrap1, kinWrap2, wrapAxis0, wrapAxis1, wrapAxis2,
     Int.fmod_eq_emod_of_nonneg _ (Int.le_of_lt hn), Int.tmod_eq_emod_of_nonneg hc, and_self]
+
+/-! ### completeness of the kinetics enumeration -/
+
+/-- one coordinate of a candidate of the kinetics loop: shifted, wrapped only on a periodic axis longer than one cell -/
+def kstep (per : Bool) (n c δ : Int) : Int := if (per && decide (n > 1)) = true then (n + (c + δ)) % n else c + δ
+
+theorem kstep_zero {per : Bool} {n c : Int} (hc : 0 ≤ c ∧ c < n) : kstep per n c 0 = c := by
+  unfold kstep; split
+  · rw [Int.add_zero, wrap_same hc.1 hc.2]
+  · omega
+
+theorem kstep_plus_iff {per : Bool} {n c b : Int} (hc : 0 ≤ c ∧ c < n) (hb : 0 ≤ b ∧ b < n) :
+    b = kstep per n c 1 ↔ ((b = c + 1 ∧ b < n) ∨ (per = true ∧ c = n - 1 ∧ b = 0)) ∧ c ≠ b := by
+  unfold kstep
+  cases per
+  · simp; omega
+  · by_cases hn : n > 1
+    · simp only [Bool.true_and, hn, decide_true, if_true, true_and, wrap_succ hc.1 hc.2]; split <;> omega
+    · simp [hn]; omega
+
+theorem kstep_minus_iff {per : Bool} {n c b : Int} (hc : 0 ≤ c ∧ c < n) (hb : 0 ≤ b ∧ b < n) :
+    b = kstep per n c (-1) ↔ ((c = b + 1 ∧ 0 ≤ b) ∨ (per = true ∧ c = 0 ∧ b = n - 1)) ∧ c ≠ b := by
+  unfold kstep
+  cases per
+  · simp; omega
+  · by_cases hn : n > 1
+    · simp only [Bool.true_and, hn, decide_true, if_true, true_and, show c + -1 = c - 1 by ring, wrap_pred hc.1 hc.2]; split <;> omega
+    · simp [hn]; omega
+
+/-- the six candidates of the kinetics loop for an in-grid cell -/
+theorem kinCandidates_eq (g : GridShape) {x y z : Int} (hc : inGrid g x y z) :
+    kinCandidates g x y z = [(kstep g.px g.w x 1, y, z), (kstep g.px g.w x (-1), y, z), (x, kstep g.py g.h y 1, z),
+      (x, kstep g.py g.h y (-1), z), (x, y, kstep g.pz g.d z 1), (x, y, kstep g.pz g.d z (-1))] := by
+  obtain ⟨hx, hy, hz⟩ := hc
+  have ex := kstep_zero (per := g.px) hx
+  have ey := kstep_zero (per := g.py) hy
+  have ez := kstep_zero (per := g.pz) hz
+  have fw : ∀ c : Int, Int.fmod ((g.w : Int) + c) g.w = ((g.w : Int) + c) % g.w := fun c => Int.fmod_eq_emod_of_nonneg _ (by omega)
+  have fh : ∀ c : Int, Int.fmod ((g.h : Int) + c) g.h = ((g.h : Int) + c) % g.h := fun c => Int.fmod_eq_emod_of_nonneg _ (by omega)
+  have fd : ∀ c : Int, Int.fmod ((g.d : Int) + c) g.d = ((g.d : Int) + c) % g.d := fun c => Int.fmod_eq_emod_of_nonneg _ (by omega)
+  simp only [kstep, Int.add_zero] at ex ey ez
+  simp only [kinCandidates, kinDeltas, List.map_cons, List.map_nil, kinWrapCond0, kinWrapCond1, kinWrapCond2, kinWrap0, kinWrap1,
+    kinWrap2, fw, fh, fd, kstep, ex, ey, ez, Int.sub_eq_add_neg]
+
+private theorem six_and (K0 K1 K2 K3 K4 K5 R0 R1 R2 R3 R4 R5 N : Prop)
+    (h0 : K0 ↔ R0 ∧ N) (h1 : K1 ↔ R1 ∧ N) (h2 : K2 ↔ R2 ∧ N) (h3 : K3 ↔ R3 ∧ N) (h4 : K4 ↔ R4 ∧ N) (h5 : K5 ↔ R5 ∧ N) :
+    (K0 ∨ K1 ∨ K2 ∨ K3 ∨ K4 ∨ K5) ↔ (R0 ∨ R1 ∨ R2 ∨ R3 ∨ R4 ∨ R5) ∧ N := by
+  rw [h0, h1, h2, h3, h4, h5]; simp only [or_and_right]
+
+/-- coordinate level: the candidates of the kinetics loop that lie in the grid are exactly the face neighbours
+other than the cell itself -/
+theorem kinetics_coords_iff (g : GridShape) {x y z xj yj zj : Int} (hc : inGrid g x y z) (hj : inGrid g xj yj zj) :
+    (xj, yj, zj) ∈ kinCandidates g x y z ↔ faceAdj g (x, y, z) (xj, yj, zj) ∧ (x, y, z) ≠ (xj, yj, zj) := by
+  rw [faceAdj_iff_reach g hc hj, exists_lt_six, kinCandidates_eq g hc]
+  simp only [List.mem_cons, Prod.mk.injEq, List.not_mem_nil, or_false]
+  obtain ⟨hx, hy, hz⟩ := hc
+  obtain ⟨jx, jy, jz⟩ := hj
+  apply six_and <;> simp only [kstep_plus_iff hx jx, kstep_minus_iff hx jx, kstep_plus_iff hy jy, kstep_minus_iff hy jy,
+    kstep_plus_iff hz jz, kstep_minus_iff hz jz, reach, ne_eq, Prod.mk.injEq]
+  · cases g.px <;> simp <;> omega
+  · cases g.px <;> simp <;> omega
+  · cases g.py <;> simp <;> omega
+  · cases g.py <;> simp <;> omega
+  · cases g.pz <;> simp <;> omega
+  · cases g.pz <;> simp <;> omega
+
+theorem coordsOf_cellOf {g : GridShape} {x y z : Int} (hc : inGrid g x y z) : coordsOf g (cellOf g x y z) = (x, y, z) := by
+  have hw : (0 : Int) < g.w := by have := hc.1; omega
+  have e : cellOf g x y z = x + y * g.w + z * (g.w * g.h) := by unfold cellOf; ring
+  obtain ⟨d1, d2, d3⟩ := decode_encode (z := z) hw hc.1.1 hc.1.2 hc.2.1.1 hc.2.1.2
+  simp only [coordsOf, e, d1, d2, d3]
+
+theorem cellOf_range {g : GridShape} {x y z : Int} (hc : inGrid g x y z) :
+    0 ≤ cellOf g x y z ∧ cellOf g x y z < (g.w : Int) * g.h * g.d := by
+  have e : cellOf g x y z = x + y * g.w + z * (g.w * g.h) := by unfold cellOf; ring
+  rw [e]; exact encode_range hc.1.1 hc.1.2 hc.2.1.1 hc.2.1.2 hc.2.2.1 hc.2.2.2
+
+/-- `are_neighbors(i, j)` on two cell indices = the distance test on their coordinates -/
+theorem pyAreNeighbors_num {g : GridShape} (hv : g.valid = true) {i j : Int}
+    (hi : 0 ≤ i ∧ i < (g.w : Int) * g.h * g.d) (hj : 0 ≤ j ∧ j < (g.w : Int) * g.h * g.d) :
+    pyAreNeighbors g (.num i) (.num j) = .ok (areNbrCoords g (coordsOf g i) (coordsOf g j)) := by
+  have b1 : pyWithinBounds g (.num i) = true := (within_bounds_iff g _).2 hi
+  have b2 : pyWithinBounds g (.num j) = true := (within_bounds_iff g _).2 hj
+  simp only [pyAreNeighbors, b1, b2, Bool.not_true, Bool.and_false, Bool.false_eq_true, if_false, pyCellIndex_num hi, pyCellIndex_num hj,
+    pyCoords_eq hv hi, pyCoords_eq hv hj]
+
+/-- **kinetics_enum_iff** — the neighbour loop of `_compute_dspeciesdt_grid` raises for no cell and adds the diffusion
+terms of exactly the cells `are_neighbors` accepts (= the face neighbours other than the cell itself) -/
+theorem kinetics_enum_iff {g : GridShape} (hv : g.valid = true) {i j : Int}
+    (hi : 0 ≤ i ∧ i < (g.w : Int) * g.h * g.d) (hj : 0 ≤ j ∧ j < (g.w : Int) * g.h * g.d) :
+    ∃ l, kinNeighbors g (.num i) = .ok l ∧
+      (j ∈ l ↔ areNbrCoords g (coordsOf g i) (coordsOf g j) = true) ∧
+      (j ∈ l ↔ faceAdj g (coordsOf g i) (coordsOf g j) ∧ i ≠ j) := by
+  obtain ⟨ci, hci⟩ := coordsOf_inGrid hv hi
+  obtain ⟨cj, hcj⟩ := coordsOf_inGrid hv hj
+  have hc := pyCoords_eq hv hi
+  have hguard : kinBoundsGuard = true := rfl
+  generalize hcoi : coordsOf g i = c1 at ci hci hc ⊢
+  obtain ⟨x, y, z⟩ := c1
+  let L := (kinCandidates g x y z).filter fun c => (!kinBoundsGuard) || withinBoundsArr g.w g.h g.d c.1 c.2.1 c.2.2
+  have hL : ∀ c ∈ L, inGrid g c.1 c.2.1 c.2.2 ∧ c ∈ kinCandidates g x y z := by
+    intro c hcL
+    obtain ⟨hm, hb⟩ := List.mem_filter.1 hcL
+    simp only [hguard, Bool.not_true, Bool.false_or] at hb
+    exact ⟨(bounds_arr_iff _ _ _ _ _ _).1 hb, hm⟩
+  have hadj : ∀ c ∈ L, areNbrCoords g (x, y, z) c = true := by
+    intro c hcL
+    obtain ⟨hin, hm⟩ := hL c hcL
+    exact (are_neighbors_iff g ci hin).2 ((kinetics_coords_iff g ci hin).1 hm)
+  have hf : ∀ c ∈ L, (match pyCellIndex g (.arr c.1 c.2.1 c.2.2) with
+      | .error e => .error e
+      | .ok j' => match pyCellIndex g (.arr x y z) with
+        | .error e => .error e
+        | .ok i' => match pyAreNeighbors g (.num i') (.num j') with
+          | .error e => .error e
+          | .ok true => .ok j'
+          | .ok false => .error .badValue : Res Int) = .ok (cellOf g c.1 c.2.1 c.2.2) := by
+    intro c hcL
+    obtain ⟨hin, _⟩ := hL c hcL
+    have e1 := (index_formula g hin).1
+    have e2 := (index_formula g ci).1
+    rw [hci] at e2
+    have e3 := pyAreNeighbors_num hv hi (cellOf_range hin)
+    rw [hcoi, coordsOf_cellOf hin, hadj c hcL] at e3
+    simp only [e1, e2, e3]
+  refine ⟨L.map fun c => cellOf g c.1 c.2.1 c.2.2, ?_, ?_⟩
+  · simp only [kinNeighbors, pyCellIndex_num hi, hc]
+    exact seqRes_map_ok _ _ L hf
+  · have hmem : j ∈ L.map (fun c => cellOf g c.1 c.2.1 c.2.2) ↔ coordsOf g j ∈ kinCandidates g x y z := by
+      simp only [List.mem_map]
+      constructor
+      · rintro ⟨c, hcL, he⟩
+        obtain ⟨hin, hm⟩ := hL c hcL
+        rw [← hcj] at he
+        obtain ⟨e1, e2, e3⟩ := index_injective g hin cj he
+        have : c = coordsOf g j := Prod.ext e1 (Prod.ext e2 e3)
+        rw [← this]; exact hm
+      · intro hm
+        refine ⟨coordsOf g j, List.mem_filter.2 ⟨hm, ?_⟩, hcj⟩
+        simp only [hguard, Bool.not_true, Bool.false_or]
+        exact (bounds_arr_iff _ _ _ _ _ _).2 cj
+    have hk := kinetics_coords_iff g ci cj
+    have hne : (x, y, z) ≠ coordsOf g j ↔ i ≠ j := by
+      constructor
+      · intro h e; subst e; exact h hcoi.symm
+      · intro h e; apply h; rw [← hci, ← hcj, ← e]
+    constructor
+    · rw [hmem, hk, are_neighbors_iff g ci cj]
+    · rw [hmem, hk, hne]
+
+/-- `get_neighbors(i)` and `are_neighbors(i, ·)` agree on every other cell -/
+theorem get_neighbors_iff_are_neighbors {g : GridShape} (hv : g.valid = true) {i j : Int}
+    (hi : 0 ≤ i ∧ i < (g.w : Int) * g.h * g.d) (hj : 0 ≤ j ∧ j < (g.w : Int) * g.h * g.d) (hne : i ≠ j) :
+    ∃ l, pyGetNeighbors g (.num i) = .ok l ∧ (j ∈ l ↔ pyAreNeighbors g (.num i) (.num j) = .ok true) := by
+  obtain ⟨l, hl, hm⟩ := get_neighbors_iff hv hi hj
+  obtain ⟨ci, hci⟩ := coordsOf_inGrid hv hi
+  obtain ⟨cj, hcj⟩ := coordsOf_inGrid hv hj
+  refine ⟨l, hl, ?_⟩
+  rw [hm, pyAreNeighbors_num hv hi hj]
+  have hne' : coordsOf g i ≠ coordsOf g j := fun e => hne (by rw [← hci, ← hcj, e])
+  have := are_neighbors_iff g ci cj
+  constructor
+  · intro h; rw [this.2 ⟨h, hne'⟩]
+  · intro h; injection h with h; exact (this.1 h).1
 
 /-- `compute_diffusion_rates` refuses non-neighbours through `are_neighbors` (grid) / `get_edge` (graph) -/
 theorem diffusion_rates_neighbour_tests :
@@ -327,6 +690,33 @@ theorem grid_to_graph_geometry {g : GridShape} {a : Rat} {envs : List Int} {gr :
     obtain ⟨p, _, rfl⟩ := he
     exact ⟨rfl, rfl⟩
 
+/-! ### adjacency of `grid_to_graph`: edges = face pairs, with multiplicity -/
+
+theorem idxC_eq (g : GridShape) (c : Coord) : idxC g c = cellOf g c.1 c.2.1 c.2.2 := by
+  simp only [idxC, cellIndexArr, cellOf]; ring
+
+/-- the negative faces of `c1` are the positive faces seen from the other cell -/
+theorem reach_neg_iff (g : GridShape) {c1 c2 : Coord} (h1 : inGrid g c1.1 c1.2.1 c1.2.2) (h2 : inGrid g c2.1 c2.2.1 c2.2.2) :
+    (reach g 1 c1 c2 ↔ reach g 0 c2 c1) ∧ (reach g 3 c1 c2 ↔ reach g 2 c2 c1) ∧ (reach g 5 c1 c2 ↔ reach g 4 c2 c1) := by
+  obtain ⟨x1, y1, z1⟩ := c1
+  obtain ⟨x2, y2, z2⟩ := c2
+  dsimp only at h1 h2
+  obtain ⟨⟨a0, a1⟩, ⟨b0, b1⟩, ⟨c0, c1'⟩⟩ := h1
+  obtain ⟨⟨d0, d1⟩, ⟨e0, e1⟩, ⟨f0, f1⟩⟩ := h2
+  simp only [reach]
+  refine ⟨?_, ?_, ?_⟩
+  · cases g.px <;> simp <;> omega
+  · cases g.py <;> simp <;> omega
+  · cases g.pz <;> simp <;> omega
+
+/-- the faces between two cells = the directed edges one way + the directed edges the other way -/
+theorem faceCount_eq_edge_count (g : GridShape) {c1 c2 : Coord} (h1 : inGrid g c1.1 c1.2.1 c1.2.2) (h2 : inGrid g c2.1 c2.2.1 c2.2.2) :
+    faceCount g c1 c2 = (coordEdges g).count (c1, c2) + (coordEdges g).count (c2, c1) := by
+  obtain ⟨r1, r3, r5⟩ := reach_neg_iff g h1 h2
+  rw [faceCount_eq_sum, count_coordEdges g h1, count_coordEdges g h2]
+  simp only [r1, r3, r5]
+  omega
+
 /-- `get_edge(i, j)` finds an edge iff one joins `i` and `j` in either orientation -/
 theorem get_edge_iff (edges : List PyGEdge) (i j : Int) :
     (getEdge edges i j).isSome = true ↔ ∃ e ∈ edges, (e.i = i ∧ e.j = j) ∨ (e.i = j ∧ e.j = i) := by
@@ -335,6 +725,130 @@ theorem get_edge_iff (edges : List PyGEdge) (i j : Int) :
 theorem get_edge_symm (edges : List PyGEdge) (i j : Int) : (getEdge edges i j).isSome = (getEdge edges j i).isSome := by
   rw [Bool.eq_iff_iff, get_edge_iff, get_edge_iff]
   constructor <;> (rintro ⟨e, he, h⟩; exact ⟨e, he, h.symm⟩)
+
+/-- number of edges of `grid_to_graph` oriented from cell `c1` to cell `c2` -/
+theorem edge_filter_count {g : GridShape} (hv : g.valid = true) {a : Rat} {envs : List Int} {gr : Graph}
+    (h : gridToGraph g a envs = .ok gr) {c1 c2 : Coord} (h1 : inGrid g c1.1 c1.2.1 c1.2.2) (h2 : inGrid g c2.1 c2.2.1 c2.2.2) :
+    (gr.edges.filter fun e => e.i == cellOf g c1.1 c1.2.1 c1.2.2 && e.j == cellOf g c2.1 c2.2.1 c2.2.2).length =
+      (coordEdges g).count (c1, c2) := by
+  rw [gridToGraph_ok g hv a envs] at h
+  cases h
+  simp only [← List.countP_eq_length_filter, List.countP_map, List.count_eq_countP]
+  apply List.countP_congr
+  intro p hp
+  obtain ⟨p1, p2⟩ := coordEdges_inGrid g hv p hp
+  simp only [Function.comp, idxC_eq, Bool.and_eq_true, beq_iff_eq]
+  constructor
+  · rintro ⟨e1, e2⟩
+    obtain ⟨a1, a2, a3⟩ := index_injective g p1 h1 e1
+    obtain ⟨b1, b2, b3⟩ := index_injective g p2 h2 e2
+    exact Prod.ext (Prod.ext a1 (Prod.ext a2 a3)) (Prod.ext b1 (Prod.ext b2 b3))
+  · rintro rfl; exact ⟨rfl, rfl⟩
+
+/-- **grid_to_graph_adjacency** — for every valid grid (all sizes, all 8 boundary settings) the edges of
+`grid_to_graph(grid)` are exactly the face pairs of the grid, periodic ones included:
+(1) every edge joins two face-adjacent cells; (2) every face pair is joined by an edge (`get_edge` finds it, in both
+argument orders); (3) multiplicity: the number of edges between two cells, counted in both orientations, is the number
+of faces through which they touch (`faceCount`: 1 in general, 2 across a periodic axis of length 2; for a cell with itself
+each self-loop counts twice = 2 per periodic axis of length 1) — the same multiplicities as the engine's table
+(`engine_nbr_count`) -/
+theorem grid_to_graph_adjacency {g : GridShape} (hv : g.valid = true) {a : Rat} {envs : List Int} {gr : Graph}
+    (h : gridToGraph g a envs = .ok gr) :
+    (∀ e ∈ gr.edges, ∃ c1 c2 : Coord, inGrid g c1.1 c1.2.1 c1.2.2 ∧ inGrid g c2.1 c2.2.1 c2.2.2 ∧
+      e.i = cellOf g c1.1 c1.2.1 c1.2.2 ∧ e.j = cellOf g c2.1 c2.2.1 c2.2.2 ∧ faceAdj g c1 c2) ∧
+    (∀ c1 c2 : Coord, inGrid g c1.1 c1.2.1 c1.2.2 → inGrid g c2.1 c2.2.1 c2.2.2 → faceAdj g c1 c2 →
+      (getEdge gr.edges (cellOf g c1.1 c1.2.1 c1.2.2) (cellOf g c2.1 c2.2.1 c2.2.2)).isSome = true ∧
+      (getEdge gr.edges (cellOf g c2.1 c2.2.1 c2.2.2) (cellOf g c1.1 c1.2.1 c1.2.2)).isSome = true) ∧
+    (∀ c1 c2 : Coord, inGrid g c1.1 c1.2.1 c1.2.2 → inGrid g c2.1 c2.2.1 c2.2.2 →
+      (gr.edges.filter fun e => e.i == cellOf g c1.1 c1.2.1 c1.2.2 && e.j == cellOf g c2.1 c2.2.1 c2.2.2).length +
+      (gr.edges.filter fun e => e.i == cellOf g c2.1 c2.2.1 c2.2.2 && e.j == cellOf g c1.1 c1.2.1 c1.2.2).length =
+        faceCount g c1 c2) := by
+  have h3 : ∀ c1 c2 : Coord, inGrid g c1.1 c1.2.1 c1.2.2 → inGrid g c2.1 c2.2.1 c2.2.2 →
+      (gr.edges.filter fun e => e.i == cellOf g c1.1 c1.2.1 c1.2.2 && e.j == cellOf g c2.1 c2.2.1 c2.2.2).length +
+      (gr.edges.filter fun e => e.i == cellOf g c2.1 c2.2.1 c2.2.2 && e.j == cellOf g c1.1 c1.2.1 c1.2.2).length =
+        faceCount g c1 c2 := by
+    intro c1 c2 h1 h2
+    rw [edge_filter_count hv h h1 h2, edge_filter_count hv h h2 h1, faceCount_eq_edge_count g h1 h2]
+  refine ⟨?_, ?_, h3⟩
+  · intro e he
+    have hg := h
+    rw [gridToGraph_ok g hv a envs] at hg
+    cases hg
+    simp only [List.mem_map] at he
+    obtain ⟨p, hp, rfl⟩ := he
+    obtain ⟨p1, p2⟩ := coordEdges_inGrid g hv p hp
+    refine ⟨p.1, p.2, p1, p2, idxC_eq g p.1, idxC_eq g p.2, ?_⟩
+    have hpos : 0 < (coordEdges g).count (p.1, p.2) := List.count_pos_iff.2 hp
+    rw [count_coordEdges g p1] at hpos
+    rw [faceAdj_iff_reach g p1 p2]
+    by_cases r0 : reach g 0 p.1 p.2
+    · exact ⟨0, by omega, r0⟩
+    by_cases r2 : reach g 2 p.1 p.2
+    · exact ⟨2, by omega, r2⟩
+    by_cases r4 : reach g 4 p.1 p.2
+    · exact ⟨4, by omega, r4⟩
+    simp [r0, r2, r4] at hpos
+  · intro c1 c2 h1 h2 hadj
+    have hc := h3 c1 c2 h1 h2
+    have hpos : 0 < faceCount g c1 c2 := by
+      obtain ⟨n, hn, hr⟩ := (faceAdj_iff_reach g h1 h2).1 hadj
+      unfold faceCount
+      exact List.length_pos_of_mem (List.mem_filter.2 ⟨List.mem_range.2 hn, by simpa using hr⟩)
+    have hex : ∃ e ∈ gr.edges, (e.i = cellOf g c1.1 c1.2.1 c1.2.2 ∧ e.j = cellOf g c2.1 c2.2.1 c2.2.2) ∨
+        (e.i = cellOf g c2.1 c2.2.1 c2.2.2 ∧ e.j = cellOf g c1.1 c1.2.1 c1.2.2) := by
+      rw [← hc] at hpos
+      rcases Nat.add_pos_iff_pos_or_pos.1 hpos with hp | hp
+      · obtain ⟨e, he⟩ := List.exists_mem_of_length_pos hp
+        obtain ⟨hm, hcond⟩ := List.mem_filter.1 he
+        simp only [Bool.and_eq_true, beq_iff_eq] at hcond
+        exact ⟨e, hm, Or.inl hcond⟩
+      · obtain ⟨e, he⟩ := List.exists_mem_of_length_pos hp
+        obtain ⟨hm, hcond⟩ := List.mem_filter.1 he
+        simp only [Bool.and_eq_true, beq_iff_eq] at hcond
+        exact ⟨e, hm, Or.inr hcond⟩
+    have := (get_edge_iff gr.edges _ _).2 hex
+    exact ⟨this, by rw [← get_edge_symm]; exact this⟩
+
+/-- index level: `get_edge(i, j)` on `grid_to_graph(grid)` finds an edge iff cells `i` and `j` are face-adjacent -/
+theorem grid_to_graph_get_edge_iff {g : GridShape} (hv : g.valid = true) {a : Rat} {envs : List Int} {gr : Graph}
+    (h : gridToGraph g a envs = .ok gr) {i j : Int}
+    (hi : 0 ≤ i ∧ i < (g.w : Int) * g.h * g.d) (hj : 0 ≤ j ∧ j < (g.w : Int) * g.h * g.d) :
+    (getEdge gr.edges i j).isSome = true ↔ faceAdj g (coordsOf g i) (coordsOf g j) := by
+  obtain ⟨ci, hci⟩ := coordsOf_inGrid hv hi
+  obtain ⟨cj, hcj⟩ := coordsOf_inGrid hv hj
+  obtain ⟨hsound, hcomplete, _⟩ := grid_to_graph_adjacency hv h
+  constructor
+  · intro hs
+    obtain ⟨e, he, hor⟩ := (get_edge_iff gr.edges i j).1 hs
+    obtain ⟨c1, c2, h1, h2, e1, e2, hadj⟩ := hsound e he
+    have sym : faceAdj g c2 c1 := by
+      rw [faceAdj_iff_reach g h2 h1]
+      obtain ⟨n, hn, hr⟩ := (faceAdj_iff_reach g h1 h2).1 hadj
+      obtain ⟨r1, r3, r5⟩ := reach_neg_iff g h2 h1
+      obtain ⟨q1, q3, q5⟩ := reach_neg_iff g h1 h2
+      have h6 : n = 0 ∨ n = 1 ∨ n = 2 ∨ n = 3 ∨ n = 4 ∨ n = 5 := by omega
+      rcases h6 with rfl | rfl | rfl | rfl | rfl | rfl
+      · exact ⟨1, by omega, r1.2 hr⟩
+      · exact ⟨0, by omega, q1.1 hr⟩
+      · exact ⟨3, by omega, r3.2 hr⟩
+      · exact ⟨2, by omega, q3.1 hr⟩
+      · exact ⟨5, by omega, r5.2 hr⟩
+      · exact ⟨4, by omega, q5.1 hr⟩
+    rcases hor with ⟨a1, a2⟩ | ⟨a1, a2⟩
+    · have x1 : c1 = coordsOf g i := by
+        obtain ⟨u, v, w⟩ := index_injective g h1 ci (by rw [← e1, a1, hci]); exact Prod.ext u (Prod.ext v w)
+      have x2 : c2 = coordsOf g j := by
+        obtain ⟨u, v, w⟩ := index_injective g h2 cj (by rw [← e2, a2, hcj]); exact Prod.ext u (Prod.ext v w)
+      rw [← x1, ← x2]; exact hadj
+    · have x1 : c1 = coordsOf g j := by
+        obtain ⟨u, v, w⟩ := index_injective g h1 cj (by rw [← e1, a1, hcj]); exact Prod.ext u (Prod.ext v w)
+      have x2 : c2 = coordsOf g i := by
+        obtain ⟨u, v, w⟩ := index_injective g h2 ci (by rw [← e2, a2, hci]); exact Prod.ext u (Prod.ext v w)
+      rw [← x1, ← x2]; exact sym
+  · intro hadj
+    have := (hcomplete _ _ ci cj hadj).1
+    rw [hci, hcj] at this
+    exact this
 
 /-! ## non-vacuity -/
 
